@@ -19,7 +19,7 @@ DEMO_CMD=$(python3 -c "
 import re,sys
 print(re.sub(r'/tmp/seed[0-9]?-$P(?!-out)', '$WT', sys.argv[1]))" "$DEMO_CMD")
 # placeholders such as <worktree>, <gleece>, <tree>, <repo> stand for the scratch worktree
-DEMO_CMD=$(echo "$DEMO_CMD" | sed -E "s#<(worktree|gleece|tree|repo|checkout|src)>#$WT#g")
+DEMO_CMD=$(echo "$DEMO_CMD" | sed -E "s#<(worktree|gleece|tree|repo|checkout|src|srcroot)>#$WT#g")
 echo "demo_cmd=$DEMO_CMD" >> $R
 # a delivered top-level *_test.go is staged into the package directory the go test command names
 stage_demo() {
